@@ -76,6 +76,8 @@ type rwCase struct {
 	Ops []rwOp `json:"ops"`
 	// LateTargets: target indices that are NOT connected at the start (connected by a later "connect" op or at drain)
 	LateTargets []int `json:"late_targets,omitempty"`
+	// LateSources: source indices whose stream is NOT open at the start (opened by a later "connect" op or at drain)
+	LateSources []int `json:"late_sources,omitempty"`
 	Epilogue    bool  `json:"epilogue,omitempty"` // run C03's liveness epilogue
 	// Nodes > 1: that many proxy instances (real shard managers + intra-proxy managers connected by real gRPC over
 	// in-memory pipes) share the work; SrcNode[i] / TgtNode[j] say on which instance the stream of source shard i /
@@ -87,7 +89,7 @@ type rwCase struct {
 
 func (c rwCase) String() string {
 	var sb strings.Builder
-	fmt.Fprintf(&sb, "NS=%d NT=%d late=%v:", c.NS, c.NT, c.LateTargets)
+	fmt.Fprintf(&sb, "NS=%d NT=%d late=%v lateS=%v:", c.NS, c.NT, c.LateTargets, c.LateSources)
 	if c.Nodes > 1 {
 		fmt.Fprintf(&sb, " nodes=%d src@%v tgt@%v:", c.Nodes, c.SrcNode, c.TgtNode)
 	}
@@ -212,6 +214,9 @@ type rwTaskRec struct {
 	// ownerGoneAtEmit: every incarnation the owning target had had by then had completely finished (handler returned):
 	// the task cannot have been queued on any of them
 	ownerGoneAtEmit bool
+	// zombieAtEmit: the owning target's connection had lost its reverse stream at an earlier step (and seconds of
+	// virtual time ago) but its handler had still not returned when this copy reached the proxy
+	zombieAtEmit bool
 }
 
 type rwDelivery struct {
@@ -238,6 +243,9 @@ type rwStreamInc struct {
 	ended    bool // the harness ended/broke it
 	openGate  chan struct{}
 	openFails bool // the proxy's reverse stream-open call fails for this incarnation
+	// revBrokenStep: step at which only the reverse stream of this connection was failed by the harness (0: never); the
+	// proxy has to take the whole connection down itself then
+	revBrokenStep int
 	snap      *rwRegSnapshot
 }
 
@@ -683,6 +691,15 @@ func (w *rwWorld) emit(o rwOp) {
 		rec := &rwTaskRec{src: s.idx, id: id, marker: marker, target: j, original: proto.Clone(task).(*replicationv1.ReplicationTask), srcInc: len(s.incs) - 1, msgIndex: len(s.sentMsgs)}
 		rec.inClosedWindow = w.windowTarget == j && w.windowParked()
 		rec.ownerIncsAtEmit = len(w.targets[j].incs)
+		if n := len(w.targets[j].incs); n > 0 {
+			if last := w.targets[j].incs[n-1]; last.revBrokenStep > 0 && last.revBrokenStep < w.step {
+				select {
+				case <-last.done:
+				default:
+					rec.zombieAtEmit = true
+				}
+			}
+		}
 		rec.ownerGoneAtEmit = len(w.targets[j].incs) > 0
 		for _, inc := range w.targets[j].incs {
 			select {
@@ -812,6 +829,30 @@ func (w *rwWorld) observe() {
 			if t.tracker != nil {
 				t.tracker.track(tm.high, tm.ids, tm.recs)
 			}
+		}
+	}
+	// the source-cluster shards' own streams are receivers too (of the opposite replication direction, which carries no
+	// traffic in this world): whatever the proxy sends them they handle like a Temporal receiver - a task of their own
+	// cluster is foreign, a watermark-only message is acknowledged at its high watermark
+	for _, s := range w.sources {
+		if len(s.incs) == 0 {
+			continue
+		}
+		inc := s.incs[len(s.incs)-1]
+		if inc.ended {
+			continue
+		}
+		for _, m := range inc.ss.Taken() {
+			msgs := m.GetMessages()
+			if msgs == nil {
+				continue
+			}
+			if len(msgs.ReplicationTasks) > 0 {
+				w.fail("the stream of source-cluster shard S%d received %d replication task(s): tasks of cluster 1 were sent back to cluster 1", s.idx, len(msgs.ReplicationTasks))
+				continue
+			}
+			w.classes["a_source_cluster_shard_was_sent_a_watermark"]++
+			inc.ss.Push(&vfReq{Attributes: &adminservice.StreamWorkflowReplicationMessagesRequest_SyncReplicationState{SyncReplicationState: &replicationv1.SyncReplicationState{InclusiveLowWatermark: msgs.ExclusiveHighWatermark}}})
 		}
 	}
 	// source faces: consumed counters and acks
@@ -960,6 +1001,12 @@ func (w *rwWorld) classifyPair(s *rwSource, a rwSourceAck, id int64) string {
 	}
 	if delivered && onEnded {
 		return "lost_with_dead_target_incarnation"
+	}
+	for _, r := range s.allTasks {
+		if r.id == id && r.zombieAtEmit && !delivered {
+			// the proxy kept half of a connection alive after the other half had failed and swallowed the task there
+			return "handed_to_a_connection_the_proxy_should_have_taken_down"
+		}
 	}
 	if !delivered && closedWindow {
 		// it reached the proxy when the dead incarnation's channel was already closed: it was never queued on that
